@@ -434,6 +434,38 @@ pub fn fam_gadget(d: &mut Decider, tmax: usize) -> GSpec {
     g
 }
 
+/// Two or three cats (Pauli hub, mostly pi, 3..4 T legs each) side by side, sometimes with a few
+/// loose T spiders. A driver that applies the magic-5 decomposition to five T spiders taken from
+/// DIFFERENT places (Sherlock does) leaves terms that are not graph-like - plain edges between
+/// spiders - and, without inter-step simplification, the next decomposition meets them as they are.
+pub fn fam_pi_cats(d: &mut Decider, tmax: usize) -> GSpec {
+    let mut g = GSpec::empty();
+    let mut t = 0;
+    let ncats = 2 + d.choose("pc.n", 2);
+    for _ in 0..ncats {
+        let legs = 3 + d.choose("pc.legs", 2);
+        if t + legs > tmax {
+            break;
+        }
+        let hub = g.z(if d.coin("pc.pi", 3, 4) { 4 } else { 0 });
+        for _ in 0..legs {
+            let ph = t_phase(d);
+            let l = g.z(ph);
+            g.h(hub, l);
+            t += 1;
+        }
+    }
+    while t < tmax && d.coin("pc.loose", 1, 3) {
+        let ph = t_phase(d);
+        g.z(ph);
+        t += 1;
+    }
+    if g.verts.is_empty() {
+        return fam_isolated(d, 2);
+    }
+    g
+}
+
 /// Two phase gadgets with 8..10 legs on nearly the same support: 9..10 non-Clifford support
 /// spiders (so that full simplification cannot remove them), two hubs with a T leaf each; the
 /// second support is the first one minus one or two spiders. The support spiders take their
@@ -565,9 +597,10 @@ pub fn fam_isolated(d: &mut Decider, tmax: usize) -> GSpec {
 
 /// A closed graph-like diagram from one of the families (or a disjoint union).
 pub fn closed_diagram(d: &mut Decider, nmax: usize, tmax: usize) -> (GSpec, &'static str) {
-    let fam = d.choose("fam", 15);
+    let fam = d.choose("fam", 16);
     let (mut g, name) = match fam {
         14 => (fam_big_gadgets(d), "big_gadgets"),
+        15 => (fam_pi_cats(d, tmax), "pi_cats"),
         12 | 13 => {
             // repeated components: several copies of the same small multi-T component next to
             // copies of another one (splitting, sharing or de-duplicating work between identical
